@@ -7,6 +7,7 @@ import JanetModel.Parse.Escape
 import JanetModel.Parse.Pos
 import JanetModel.Parse.Pure
 import JanetModel.Parse.Roundtrip
+import JanetModel.Parse.ReadAll
 
 namespace JanetModel.Props.C11
 open JanetModel.Parse JanetModel.PP JanetModel.Gen.Parse
@@ -258,11 +259,8 @@ latched error), in ANY context where a value may start: `top` is a frame handled
 reader macro), arbitrary argument stack and frames below.  `popstate` is where the parser delivers a finished value
 (it pushes it on the enclosing container / wraps it for the root queue / applies pending reader macros).
 
-**Gap to the full `jdn_roundtrip : parse (jdn v) = [v]`** (tested on the implementation, not proved): the induction over tuples /
-arrays / structs / tables.  It needs (i) `popstate`/`closeDelim` accounting on the argument stack (available: `popstateAux_spec`,
-`takeArgs`), (ii) for every printed item the fact that it is followed by a space or a closing delimiter -- the look-ahead lemma
-`token_roundtrip` below is stated for an arbitrary delimiter precisely for that -- and (iii) for dictionaries, that `structPut` /
-`tablePut` over distinct keys rebuild the association list, plus symbols that start with `@` (they go through `atsign`). -/
+The full statement `jdn_roundtrip` (induction over tuples / arrays / structs / tables, `@`-symbols, lift to `parseAll`) is at the
+end of this file; these atom theorems are kept as its base cases at the position-free `eats` level. -/
 
 /-- strings: `jdn` prints `escapeString`, which reads back as the string -/
 theorem jdn_roundtrip_string (scan : List B → Option String) (fmt : String → Option (List B)) (depth : Nat) (bs : List B)
@@ -383,5 +381,73 @@ theorem jdn_roundtrip_number (scan : List B → Option String) (fmt : String →
 /-- non-vacuity: the hypotheses are met by the initial parser, and the conclusion computes on a string with NUL, quote,
     backslash, newline, DEL and a high byte -/
 example : (Parser.init.states.head?.map (·.consumer)) = some Consumer.root := by decide
+
+/-! ## ★★ `jdn_roundtrip`: every value `%j` prints parses back to a deep-equal value
+
+Hypotheses, all explicit and decidable except the number one:
+* `hprint : jdn scan fmt depth v = some T` -- `%j` with recursion budget `depth` (pp.c `print_jdn_one`: `depth == 0` refuses; the
+  default budget is `Gen.jdnDefaultDepth` = JANET_RECURSION_GUARD) prints `v` as `T`.  This already says: every symbol / keyword in
+  `v` passes `contains_bad_chars`, no number is NaN / infinite (`fmt` refuses), `v` is not nested deeper than the budget (pp.c
+  panics "could not print to jdn format" otherwise -- it never prints `...`).
+* `hdict : v.dictOK = true` -- every struct / table inside `v` is a possible one: as many values as keys, no nil key / value,
+  keys pairwise different under `janet_equals` (`keq`).
+* `hnum : NumOK scan fmt` -- C13's `scan (print17 x) = x`, plus: the printed number is a token (digits / sign / `.` / `e`).
+Conclusion: feeding `T` to a FRESH parser (any chunking) and finishing with `janet_parser_eof` yields exactly ONE event, a value
+`w` with `w.erase = v.erase` (equal up to tuple source-map line/column, which `deep=` does not see) -- and no error.  Dictionaries
+are printed in the order of the model's association list; the resulting association list is that same list (so the map is equal
+whatever order the C prints its hash slots in: any order of distinct keys is covered by instantiating `v`'s list order). -/
+
+theorem jdn_roundtrip (scan : List B → Option String) (fmt : String → Option (List B)) (hnum : NumOK scan fmt)
+    (depth : Nat) (v : Value) (T : List B) (hprint : jdn scan fmt depth v = some T) (hdict : v.dictOK = true) :
+    ∃ w, parseAll scan T = [Event.value w] ∧ SmEq w v :=
+  jdn_parseAll scan fmt hnum depth v T hprint hdict
+
+/-- the same through ANY chunking of the text (`parser/consume` on pieces, `parser/byte` per byte, ...) -/
+theorem jdn_roundtrip_chunked (scan : List B → Option String) (fmt : String → Option (List B)) (hnum : NumOK scan fmt)
+    (depth : Nat) (v : Value) (chunks : List (List B)) (hprint : jdn scan fmt depth v = some chunks.flatten) (hdict : v.dictOK = true) :
+    ∃ w, (finish scan (chunks.foldl (feed scan) Run.init)).out = [Event.value w] ∧ SmEq w v := by
+  rw [← chunk_independent_many]
+  exact jdn_parseAll scan fmt hnum depth v _ hprint hdict
+
+/-- ... and in ANY context where a value may start (`top` handled by `root`: top level, inside any container at any depth, after a
+    reader macro), with anything on the argument stack, followed by any delimiter `%j` can put there: through
+    `janet_parser_consume` with its position updates (`eatsP` / `eatP`), a value equal to `v` up to source maps is handed to
+    `popstate` over untouched lower frames, and the delimiter is then processed by the uncovered frame -/
+theorem jdn_roundtrip_nested (scan : List B → Option String) (fmt : String → Option (List B)) (hnum : NumOK scan fmt)
+    (depth : Nat) (v : Value) (T : List B) (hprint : jdn scan fmt depth v = some T) (hdict : v.dictOK = true)
+    (p : Parser) (A : List Value) (top : Frame) (rest : List Frame) (pd fl : Nat) (d : B)
+    (hp : Shape p A (top :: rest) [] pd fl) (htop : top.consumer = .root) (hd : isDelim d = true) :
+    ∃ v' q0 f, SmEq v' v ∧ Shape q0 A (f :: top :: rest) [] pd fl ∧ eatsP scan p (T ++ [d]) = eatP scan (popstate q0 v') d :=
+  reads_pop scan fmt hnum depth v T hprint hdict p A top rest pd fl d hp htop hd
+
+/-- `eatP` is `janet_parser_consume` (the model's `consumeRaw`) whenever it is defined: the statements above are about the real
+    per-byte entry point, not about a simplified loop -/
+theorem eatP_is_consume (scan : List B → Option String) (p q : Parser) (c : B) (h : eatP scan p c = some q) :
+    consumeRaw scan p c = q ∧ q.error = none := consumeRaw_of_eatP scan p q c h
+
+/-- `janet_equals` on parsed values cannot see source-map positions (so `SmEq` is the right notion of "deep-equal") -/
+theorem keq_ignores_source_maps (a a' b b' : Value) (ha : SmEq a a') (hb : SmEq b b') : keq a b = keq a' b' := keq_smEq ha hb
+
+/-! non-vacuity: a nested value with every kind of node -- number, struct with keyword and `@x` symbol keys, array, string with NUL
+    and quote, buffer with a high byte, table, bracket tuple, the symbol `@`, nil -- printed at budget 5, refused at budget 3 -/
+def scanEx (bs : List B) : Option String := if bs = [49] then some "one" else none
+def fmtEx (t : String) : Option (List B) := if t = "one" then some [49] else none
+def vEx : Value :=
+  .tuple false 7 7 [.num "one", .struct [.kw [97], .sym [64, 120]] [.array [.str [0, 34], .buf [255]], .table [.bool true] [.tuple true 3 3 []]],
+    .sym [64], .nil]
+/-- `(1 {:a @["\0\"" @"\xFF"] @x @{true []}} @ nil)` -/
+def textEx : List B := [40, 49, 32, 123, 58, 97, 32, 64, 91, 34, 92, 48, 92, 34, 34, 32, 64, 34, 92, 120, 70, 70, 34, 93, 32, 64, 120, 32,
+  64, 123, 116, 114, 117, 101, 32, 91, 93, 125, 125, 32, 64, 32, 110, 105, 108, 41]
+
+theorem numOK_ex : NumOK scanEx fmtEx := by
+  intro tag T h
+  unfold fmtEx at h
+  split at h
+  · simp only [Option.some.injEq] at h; subst h; subst_vars; exact ⟨by decide, by decide⟩
+  · cases h
+
+example : jdn scanEx fmtEx 5 vEx = some textEx ∧ vEx.dictOK = true ∧ jdn scanEx fmtEx 3 vEx = none := by decide
+example : ∃ w, parseAll scanEx textEx = [Event.value w] ∧ SmEq w vEx :=
+  jdn_roundtrip scanEx fmtEx numOK_ex 5 vEx textEx (by decide) (by decide)
 
 end JanetModel.Props.C11
